@@ -2,6 +2,7 @@ package rules
 
 import (
 	"fmt"
+	"go/constant"
 	"go/token"
 	"go/types"
 	"strings"
@@ -583,8 +584,8 @@ func c07CheckToJSONGo(ru *fw.Rule, p *fw.Program, fn *ssa.Function, optT *types.
 			if c, isC := iv.(*ssa.Const); isC {
 				good = c.Value != nil && c.Value.ExactString() == "0"
 			} else {
-				// must be a field of the options parameter
-				good = c07FromParamField(iv)
+				// must be a field of the options parameter, possibly clamped so that 0 stays 0
+				good = c07IndentFromOptions(iv)
 			}
 		}
 		ru.Check(good, "_to_json/1:options.Indent", p.Rel(newEnc.Pos()), "Indent is 0 or comes from the caller's options", "tojson encoder has a fixed non-zero Indent: tojson/0 is no longer compact")
@@ -688,4 +689,38 @@ func c07FromParamField(v ssa.Value) bool {
 		}
 	}
 	return false
+}
+
+// c07IndentFromOptions: v is a field of the options parameter, or min/max clamps of one with
+// constants that leave 0 (and the small widths) unchanged: max(c, x) with c <= 0, min(x, c) with c >= 8.
+func c07IndentFromOptions(v ssa.Value) bool {
+	if c07FromParamField(v) {
+		return true
+	}
+	call, ok := v.(*ssa.Call)
+	if !ok {
+		return false
+	}
+	b, ok := call.Call.Value.(*ssa.Builtin)
+	if !ok || (b.Name() != "min" && b.Name() != "max") {
+		return false
+	}
+	fromOpts := false
+	for _, a := range call.Call.Args {
+		if c, isC := a.(*ssa.Const); isC {
+			if c.Value == nil {
+				return false
+			}
+			n, exact := constant.Int64Val(constant.ToInt(c.Value))
+			if !exact || (b.Name() == "max" && n > 0) || (b.Name() == "min" && n < 8) {
+				return false
+			}
+			continue
+		}
+		if !c07IndentFromOptions(a) {
+			return false
+		}
+		fromOpts = true
+	}
+	return fromOpts
 }
